@@ -517,6 +517,9 @@ class Interp:
             self.do_for(n, env)
         elif t == "while":
             while self.ev(n["cond"], env):
+                self.steps += 1
+                if self.steps > 60000:
+                    raise RuntimeError("reference step limit")
                 try:
                     self.run(n["body"], env)
                 except _Break:
